@@ -98,6 +98,10 @@ def check(ctx):
     try:
         for isa in ("thumb", "arm"):
             cfg = L.ISAS[isa]
+            if isa == "arm":
+                # without the triple llvm-objdump decodes arm objects with the base feature set: every v6T2 / v7
+                # instruction (mls, hints ...) is printed as <unknown>.  (C08 keeps its validated configuration.)
+                cfg = dict(cfg, objdump=list(cfg.get("objdump", [])) + ["--triple=armv7"])
             rows = tabs["isas"][isa]["instrs"]
             by_cls = {r["cls"]: r for r in rows}
             items, insts_all = [], []
